@@ -202,11 +202,12 @@ pub fn run_case(a: &[&str]) -> String {
             format!("OK {}", hex(qr_svg(&content, o).as_bytes()))
         }
         "file" => {
-            // file <svg|png> <fault-class> <workdir>
-            let qr = QRBuilder::new("https://example.com/verif").build().unwrap();
+            // file <svg|png> <fault-class> <workdir> [small|large]
+            let payload = if a.get(4).map(|s| *s) == Some("small") { "A" } else { "https://example.com/verif" };
+            let qr = QRBuilder::new(payload).build().unwrap();
             let dir = a[3];
             let path = match a[2] {
-                "ok" => format!("{}/out.{}", dir, a[1]),
+                "ok" | "overwrite" => format!("{}/out_{}_{}_{}.{}", dir, a[2], a.get(4).unwrap_or(&"large"), std::process::id(), a[1]),
                 "missingdir" => format!("{}/no/such/dir/out.{}", dir, a[1]),
                 "isdir" => dir.to_string(),
                 "devfull" => "/dev/full".to_string(),
@@ -215,9 +216,17 @@ pub fn run_case(a: &[&str]) -> String {
                 "nul" => format!("{}/a\0b.{}", dir, a[1]),
                 _ => panic!("fault class"),
             };
+            if a[2] == "overwrite" {
+                // an existing, much longer file at the target path
+                std::fs::write(&path, vec![0x55u8; 300_000]).unwrap();
+            } else if a[2] == "ok" {
+                let _ = std::fs::remove_file(&path);
+            }
             let (res, expect): (Result<(), String>, Vec<u8>) = if a[1] == "svg" {
                 let mut b = SvgBuilder::default();
-                b.shape(Shape::Circle).margin(2);
+                if payload != "A" {
+                    b.shape(Shape::Circle).margin(2);
+                }
                 (b.to_file(&qr, &path).map_err(|e| format!("{:?}", e)), b.to_str(&qr).into_bytes())
             } else {
                 let mut b = ImageBuilder::default();
@@ -226,7 +235,7 @@ pub fn run_case(a: &[&str]) -> String {
             };
             match res {
                 Ok(()) => {
-                    let same = if a[2] == "ok" { std::fs::read(&path).map(|c| c == expect).unwrap_or(false) } else { false };
+                    let same = if a[2] == "ok" || a[2] == "overwrite" { std::fs::read(&path).map(|c| c == expect).unwrap_or(false) } else { false };
                     format!("RET_OK same={}", same as u8)
                 }
                 Err(_) => "RET_ERR".to_string(),
